@@ -204,6 +204,12 @@ def check(rep, ctx):
                    necessary_because="the statement of C16 itself, decided on definitions small enough to read by eye")
     for row in generated_modules(ctx):
         rep.check(R14, row["ok"], construct="codegen.generate_schema:generate_models", stmt=row["case"], message=row["message"], file=gsrc.rel, line=0)
+    from ..gen_tables import index_builder_rows
+    R15 = rep.rule("C16-G15-index", "build_index evaluated on a handful of shipped entity classes lists every one of them under its name/version/type "
+                   "and every API key (0 included) exactly once, headers without key contribute none", floor=8)
+    for row in index_builder_rows(ctx):
+        rep.check(R15, row["ok"], construct="codegen.generate_index:build_index", stmt=row["case"], message=row["message"],
+                  file="codegen/generate_index.py", line=0)
     R8 = rep.rule("C16-G8-field", "format_dataclass_field: an explicit default is emitted as given whatever the tagging/ignorability; "
                   "metadata carries the kafka type and the tag iff tagged", floor=40,
                   necessary_because="ApiVersionsResponse.FinalizedFeaturesEpoch is tagged, ignorable and has default -1: it must stay -1")
